@@ -58,6 +58,15 @@ func specPropsValid(t Object, n int) bool {
 
 //@ func (t Array) ValidateLength(v int) (err error)
 //@   ensures iff: (err == nil) == specLenValid(t, v)
+// String: length bounds count CHARACTERS (runes), JSON Schema 6.3.1/6.3.2; the format checks
+// (email, hostname, regex) are not under contract: the clause is for validators without them.
+//@ func (t String) checkEmail(v string) (err error)
+//@   trusted not under contract (range over runes, unicode tables); unreachable under String.Validate's precondition
+//@ func (t String) checkHostname(v string) (err error)
+//@   trusted not under contract (range over runes, unicode tables); unreachable under String.Validate's precondition
+//@ func (t String) Validate(v string) (err error)
+//@   requires plain: !t.Email && !t.Hostname && t.Regex == nil
+//@   ensures iff: (err == nil) == (!(t.MaxLengthSet && len([]rune(v)) > t.MaxLength) && !(t.MinLengthSet && len([]rune(v)) < t.MinLength))
 //@ func (t Array) Set() (r bool)
 //@   ensures spec: r == (t.MaxLengthSet || t.MinLengthSet || t.UniqueItems)
 //@ func (t *Array) SetMaxLength(v int)
